@@ -2,8 +2,9 @@ from common import *
 from regcommon import *
 import C01, C02
 ID = 'C03'
-TRANSLATORS = []
-COQ_TARGETS = ['Properties_C03.vo']
+TRANSLATORS = [('consts2coq.py', ['coq/Gen/Consts.v'])]
+GEN_FILES = ['coq/Gen/Consts.v']
+COQ_TARGETS = ['Properties_C03.vo', 'Proof/ConstsReg.vo']
 HARNESS_MODS = ['reg']
 RULE = ('reg.run cases (see C01) whose operations are block reads and range iterations over the small-scope table family: EVERY (address, length) window position incl. starts in holes, in gaps between '
         'registers, in the middle of multi-word registers and at area edges; readable and write-only areas; the destination is an exact-size heap block pre-filled with 0xEEEE; iteration callbacks follow '
